@@ -9,6 +9,11 @@ CHECKS = {
    text="Every (mnemonic, syntactic form, boundary operand, operand kind) cell, every branch distance -140..140 in three shapes and several origins, and every ordered pair of 41 position-independent statement forms with 4 separators is assembled in-process and compared with a reference opcode table written from the ISA / with the concatenation of the parts; random operands on top. Exhaustive over the finite spaces the property names, sampled over operand values.",
    note="Trusts model/isa.rs (self-tested on ISA literals) and the in-process mos-core API (segments(), diagnostics) as the observation point; negative operands and operands above $FFFF on absolute forms are outside the stated outcome and only checked for 'error or low 16 bits'.",
    ref="§5 C01"),
+ "C02": dict(
+   technique="proptest over entropy-built programs; oracle = independent reference layout walk (image checker) + symbol-table/VICE comparison",
+   text="Generated programs (all legal instruction forms, data, text, labels, nested scopes, label-difference constants, variables, pc assignments, .align, 1-3 segments incl. relocated ones and segments.x.end chains, super/dotted/shadowed names, origins on the zero-page boundary so that forward references flip instruction sizes) are assembled in-process; a reference walk recomputes every byte, label address and operand value from the final layout (reading only the zp/abs size choice from the image, so every self-consistent image is accepted) and compares image, symbol table and VICE text. A confirmation campaign covers the recorded finding region (forward reference to a shadowing definition).",
+   note="Trusts the reference models (layout.rs/eval.rs/isa.rs). Programs the model cannot evaluate are counted as model-unsupported (health floor), not judged. Non-terminating or failing assemblies are counted, not judged (C06/C04). CLI image equality is covered by C09/C10.",
+   ref="§5 C02"),
 }
 
 NOT_YET = {
